@@ -266,6 +266,15 @@ def c06_cases(tier):
         ("k4b spread of a fragment on a non-member of the union", C06_SCHEMA, "fragment F on Rock { weight } query Q { pet { __typename ...F } }"),
         ("k4b-object inline fragment on an unrelated object inside an object", C06_SCHEMA, "query Q { me { name ... on Rock { weight } } }"),
         ("k4b-object spread of a fragment on an unrelated object inside an object", C06_SCHEMA, "fragment F on Rock { weight } query Q { me { name ...F } }"),
+        ("k4b impossible inline fragment inside a named fragment", C06_SCHEMA, "fragment F on Named { __typename name ... on Rock { weight } } query Q { named { __typename ...F } }"),
+        ("k4b impossible inline fragment nested in an inline fragment", C06_SCHEMA, "query Q { pet { __typename ... on Dog { owner { pet { __typename ... on Rock { weight } } } } } }"),
+        ("k4b impossible spread inside a named fragment", C06_SCHEMA, "fragment R on Rock { weight } fragment F on Person { pet { __typename ...R } } query Q { me { ...F } }"),
+        ("k1 unknown field inside an inline fragment inside a fragment", C06_SCHEMA, "fragment F on Named { __typename ... on Dog { nope } } query Q { named { __typename ...F } }"),
+        ("k2a sub-selection on a scalar inside a fragment", C06_SCHEMA, "fragment F on Person { age { x } } query Q { me { ...F } }"),
+        ("k3 undefined spread inside a fragment", C06_SCHEMA, "fragment F on Person { ...Missing } query Q { me { ...F } }"),
+        ("k4a unknown type condition inside a fragment", C06_SCHEMA, "fragment F on Person { pet { __typename ... on Nope { x } } } query Q { me { ...F } }"),
+        ("k5 missing __typename on an abstract field inside a fragment", C06_SCHEMA, "fragment F on Person { pet { ... on Dog { name } } } query Q { me { ...F } }"),
+        ("k5 missing __typename on an abstract field inside an inline fragment", C06_SCHEMA, "query Q { pet { __typename ... on Dog { owner { named { name } } } } }"),
         # 5 __typename
         ("k5 interface field without __typename", C06_SCHEMA, "query Q { named { name } }"),
         ("k5 union field without __typename", C06_SCHEMA, "query Q { pet { ... on Dog { name } } }"),
@@ -361,6 +370,56 @@ def c05_cases(tier):
                         return "QUERY is not the document verbatim"
                 return None
             yield case, oracle
+    # the document read from a FILE (the derive / CLI path): the query text is the file's text, byte for byte
+    d = os.path.join(WORK, "replay-files")
+    os.makedirs(d, exist_ok=True)
+    sp = os.path.join(d, "c05_schema.graphql")
+    open(sp, "w").write(schema)
+    texts = {"plain": "query Echo { g }\n", "bom": "\ufeffquery Echo { g }\n", "crlf": "# caf\u00e9 \u2603\r\nquery Echo {\r\n  g\r\n}\r\n", "trailing": "query Echo { g }   \n\n\n"}
+    for (nm, text) in texts.items():
+        qp = os.path.join(d, "c05_%s.graphql" % nm)
+        open(qp, "w", encoding="utf-8", newline="").write(text)
+        case = {"schema_path": sp, "query_path": qp, "options": {"mode": "cli"}}
+
+        def oracle_f(res, nm=nm, text=text):
+            if res["exit"] != 0 or not res["out"] or not res["out"].get("ok"):
+                return "generation failed for the query file variant `%s`" % nm
+            toks = res["out"]["tokens"]
+            m = re.search(r'QUERY\s*:\s*&\s*(?:\'static\s*)?str\s*=\s*("(?:[^"\\]|\\.)*")', toks)
+            if not m:
+                return "no QUERY constant"
+            import ast as _ast
+            try:
+                got = _rust_str(m.group(1))
+            except Exception as e:
+                return None
+            if got != text:
+                return "QUERY differs from the query file's text (variant `%s`): file %r, constant %r" % (nm, text[:40], got[:40])
+            return None
+        yield case, oracle_f
+
+
+def _rust_str(lit):
+    """value of a Rust string literal as printed by proc_macro2 (escapes: \\n \\r \\t \\\\ \\" \\' \\0 \\u{..} \\x..)"""
+    s, out, i = lit[1:-1], [], 0
+    while i < len(s):
+        c = s[i]
+        if c != "\\":
+            out.append(c)
+            i += 1
+            continue
+        n = s[i + 1]
+        if n == "u":
+            j = s.index("}", i)
+            out.append(chr(int(s[i + 3:j], 16)))
+            i = j + 1
+        elif n == "x":
+            out.append(chr(int(s[i + 2:i + 4], 16)))
+            i += 4
+        else:
+            out.append({"n": "\n", "r": "\r", "t": "\t", "0": "\0", "\\": "\\", '"': '"', "'": "'"}[n])
+            i += 2
+    return "".join(out)
 
 
 def c12_cases(tier):
@@ -512,6 +571,73 @@ def c02_cases(tier):
             yield case, oracle
 
 
+C01_SCHEMA = ("interface Named { name: String } type Dog implements Named { name: String isGoodDog: Boolean age: Int owner: Person } "
+              "type Cat implements Named { name: String lives: Int } type Person implements Named { name: String firstName: String pets: [Pet!] best: Named } "
+              "union Pet = Dog | Cat type Query { names: [Named!] pet: Pet me: Person }")
+
+
+def _enums(t):
+    out = {}
+    for m in re.finditer(r"pubenum([A-Za-z0-9_]+)\{([^{}]*)\}", t):
+        vs = []
+        for v in m.group(2).split(","):
+            v = re.sub(r"#\[[^\]]*\]", "", v)
+            if v:
+                vs.append(v)
+        out[m.group(1)] = vs
+    return out
+
+
+def c01_cases(tier):
+    """structure of the generated response types: every selected response key is a member of the struct of its position, every spread a
+    flattened member, every abstract position an enum with one variant per member type (expectations written out by hand from the property)"""
+    cases = [
+        ("query Q { me { name first: firstName } }",
+         {"ResponseData": ["me"], "QMe": ["name", "first"]}, {}, {}),
+        ("fragment DogName on Dog { name } fragment DogTraits on Dog { isGoodDog age } query Q { names { __typename ...DogName ...DogTraits ... on Person { firstName } } }",
+         {"QNamesOnDog": ["dog_name", "dog_traits"], "QNamesOnPerson": ["first_name"], "DogName": ["name"], "DogTraits": ["is_good_dog", "age"]},
+         {"QNames": ["Dog(QNamesOnDog)", "Cat", "Person(QNamesOnPerson)"]}, {}),
+        ("fragment DogName on Dog { name } query Q { pet { __typename ...DogName ... on Cat { lives } } }",
+         {"QPetOnCat": ["lives"], "DogName": ["name"]}, {"QPet": ["Dog(QPetOnDog)", "Cat(QPetOnCat)"]}, {"QPetOnDog": "DogName"}),
+        ("query Q { names { __typename name ... on Dog { age owner { firstName } } } }",
+         {"QNames": ["name", "on"], "QNamesOnDog": ["age", "owner"], "QNamesOnDogOwner": ["first_name"]}, {"QNamesOn": ["Dog(QNamesOnDog)", "Cat", "Person"]}, {}),
+        ("fragment P on Person { firstName best { __typename name } } query Q { me { ...P pets { __typename ... on Dog { age } } } }",
+         {"QMe": ["p", "pets"], "P": ["first_name", "best"], "PBest": ["name", "on"], "QMePetsOnDog": ["age"]}, {"QMePets": ["Dog(QMePetsOnDog)", "Cat"], "PBestOn": ["Dog", "Cat", "Person"]}, {}),
+        ("fragment P on Person { firstName } query Q { me { ...P } }",
+         {"P": ["first_name"]}, {}, {"QMe": "P"}),
+        ("query Q { pet { __typename ... on Dog { name } ... on Dog { age } } }",
+         {"QPetOnDog": ["name", "age"]}, {"QPet": ["Dog(QPetOnDog)", "Cat"]}, {}),
+        ("fragment DN on Dog { name } query Q { pet { __typename ...DN ... on Dog { age } } }",
+         {"QPetOnDog": ["dn", "age"]}, {"QPet": ["Dog(QPetOnDog)", "Cat"]}, {}),
+        ("query Q { me { __typename } pet { __typename } }",
+         {"QMe": []}, {"QPet": ["Dog", "Cat"]}, {}),
+    ]
+    for (q, structs, enums, aliases) in cases:
+        case = {"schema": C01_SCHEMA, "query": q, "options": {"mode": "cli"}}
+
+        def oracle(res, q=q, structs=structs, enums=enums, aliases=aliases):
+            if res["exit"] != 0 or not res["out"] or not res["out"].get("ok"):
+                return "generation failed for a valid operation: %s" % q
+            t = norm(res["out"]["tokens"])
+            st, en = _structs(t), _enums(t)
+            for name, fields in structs.items():
+                if name not in st:
+                    return "no struct `%s` is generated for `%s`" % (name, q)
+                got = list(st[name].keys())
+                if got != fields:
+                    return "struct %s has members %s, the selection has %s (`%s`)" % (name, got, fields, q)
+            for name, vs in enums.items():
+                if name not in en:
+                    return "no enum `%s` is generated for `%s`" % (name, q)
+                if en[name] != vs:
+                    return "enum %s has variants %s, the schema / selection give %s (`%s`)" % (name, en[name], vs, q)
+            for name, target in aliases.items():
+                if not re.search(r"pubtype%s=(?:Box<)?%s>?;" % (name, target), t):
+                    return "`%s` is not an alias of the fragment type `%s` (`%s`)" % (name, target, q)
+            return None
+        yield case, oracle
+
+
 def c08_cases(tier):
     os.makedirs(os.path.join(WORK, "replay-files"), exist_ok=True)
     d = os.path.join(WORK, "replay-files")
@@ -623,7 +749,7 @@ def c15_cases(tier):
             yield case, oracle
 
 
-FAMILIES = {"C15": c15_cases, "C13": c13_cases, "C03": c13_cases, "C14": c14_cases, "C16": c16_cases, "C17": c17_cases, "C11": c11_cases, "C08": c08_cases, "C10": c10_cases, "C06": c06_cases, "C04": c04_cases, "C05": c05_cases, "C12": c12_cases, "C09": c09_cases, "C02": c02_cases}
+FAMILIES = {"C15": c15_cases, "C13": c13_cases, "C03": c13_cases, "C14": c14_cases, "C16": c16_cases, "C17": c17_cases, "C11": c11_cases, "C08": c08_cases, "C10": c10_cases, "C06": c06_cases, "C04": c04_cases, "C05": c05_cases, "C12": c12_cases, "C09": c09_cases, "C02": c02_cases, "C01": c01_cases}
 
 
 def search_witness(pid, obligation, tier):
